@@ -290,6 +290,21 @@ impl Sut {
         self.rl = None;
     }
 
+    /// Text written by a standalone `Dump` (its own directory lock, reads the
+    /// files from disk) on the closed directory.
+    pub fn offline_dump(&mut self) -> Result<String, String> {
+        self.rl = None;
+        let c = self.cfg.to_config(&self.dir.path);
+        let r = catch_unwind(AssertUnwindSafe(|| {
+            let d = raft_log::Dump::<VT>::new(c).map_err(|e| format!("Dump::new: {}", e))?;
+            d.write_to_string().map_err(|e| e.to_string())
+        }));
+        match r {
+            Ok(x) => x,
+            Err(p) => Err(format!("PANIC: {}", panic_msg(p))),
+        }
+    }
+
     pub fn reopen(&mut self, cfg: Cfg) -> Result<(), String> {
         self.rl = None;
         self.cfg = cfg;
